@@ -193,11 +193,15 @@ def gen_time(ctx):
                    "   self.__class__(x.hour, x.minute, x.second, x.microsecond) and self.diff(x).in_seconds()\n"
                    "   (AbsoluteDuration(microseconds=D).in_seconds() = int(abs(D / 1e6)), exact below one day) *)\n"
                    "Definition time_rebuild (x : ptime) : ptime := mkT (t_hour x) (t_minute x) (t_second x) (t_microsecond x).\n"
-                   "Definition abs_diff_in_seconds (self x : ptime) : Z := Z.abs (py_Time_diff_us self x) / 1000000.\n")
+                   "Definition abs_diff_in_seconds (self x : ptime) : Z := Z.abs (py_Time_diff_us self x) / 1000000.\n"
+                   "(* self.diff(x).total_seconds(): the correctly rounded |D| / 10^6, strictly monotone in |D| below one day,\n"
+                   "   so comparing two of these floats is comparing the integers |D| (form used by the proposed fix) *)\n"
+                   "Definition abs_diff_total_us (self x : ptime) : Z := Z.abs (py_Time_diff_us self x).\n")
     # --- closest / farthest
     for v in ("dt1", "dt2"):
         ctx.opaque[REBUILD.format(v)] = (f"time_rebuild v_{v}", "ptime")
         ctx.opaque[f"self.diff({v}).in_seconds()"] = ("abs_diff_in_seconds {self} v_" + v, Z)
+        ctx.opaque[f"self.diff({v}).total_seconds()"] = ("abs_diff_total_us {self} v_" + v, Z)
     for m in ("closest", "farthest"):
         fn = P.find_function(tree, "Time." + m)
         tr = P.FunTr(ctx, fn, "py_Time_" + m, self_type="ptime", argtypes={"dt1": "ptime", "dt2": "ptime"})
